@@ -209,6 +209,9 @@ func loadEngine(repo string, patterns []string) (*Engine, error) {
 	// axioms: checked at package scope
 	for _, p := range pkgs {
 		for _, c := range eng.axioms[p.PkgPath] {
+			if c.Kind == "globalwrite" {
+				continue
+			}
 			if strings.HasPrefix(c.Kind, "typeinv:") {
 				tn := strings.TrimPrefix(c.Kind, "typeinv:")
 				src := "func(self *" + tn + ") bool { return " + c.Text + " }"
@@ -499,7 +502,7 @@ func (eng *Engine) verifyFuncCase(ct *Contract, res *FuncResult, caseIdx int) {
 	// axioms about globals (all packages: globals of canvas are read from renderers too)
 	for _, p := range eng.pkgs {
 		for _, ax := range eng.axioms[p.PkgPath] {
-			if strings.HasPrefix(ax.Kind, "typeinv:") {
+			if strings.HasPrefix(ax.Kind, "typeinv:") || ax.Kind == "globalwrite" {
 				continue
 			}
 			x.clauseInfo = append(x.clauseInfo, ax.Info)
